@@ -53,6 +53,13 @@ def _side_leaf(DF, vals):
 def run(db, chk) -> None:
     from .c12 import check_trim
     check_trim(db, chk, "C02.R6-links-survive-trimming")     # links are written at parse time; the only later row removal keeps launch/activity pairs together
+    check_links(db, chk)
+    chk.floor("C02.R1-side-tables", 1)
+    chk.floor("C02.R3-mutual-stores", 2)
+
+
+def check_links(db, chk) -> None:
+    """the link rules of transform_correlation_to_index (also a clause of C12: a device activity takes the iteration of the launch call it is LINKED to)"""
     m = db.mod(TM)
     rule = "C02"
     ref = f"{TM}:transform_correlation_to_index"
@@ -152,8 +159,6 @@ def run(db, chk) -> None:
     tr_, nl_ = id_truthiness_sites(db, modules={"hta.common.trace_filter", "hta.common.trace"})
     chk.ob("C02.R1-side-tables", f"the side predicates never test a symbol id for truthiness ({nl_} lookups in trace_filter / trace)", not tr_ and nl_ >= 2, "hta/common/trace_filter.py", found=tr_ or "none",
            accepted="`.get(name, -1)` sentinels, no `if id` / `id or default`", why="when 'Event Sync' happens to be symbol 0, `if sym_id_map.get(name)` drops it: sync records change sides and lose their links")
-    chk.floor("C02.R1-side-tables", 1)
-    chk.floor("C02.R3-mutual-stores", 2)
 
     # ---------------------------------------------------------------- who may write
     writers = []
